@@ -4,7 +4,9 @@ ONLY property theorems + non-vacuity examples.  `hs : Hs D` is an ARBITRARY hash
 injective digest encoding; nothing is assumed about `H`: security conclusions are `… ∨ HColl hs`.
 
 Models (they mirror the code that exists, error classes and order of checks included):
-  ImmuModel/Tx/Export.lean      the wire format: `ExportTx` writer, `ReplicateTx` parser (Go panics explicit)
+  ImmuModel/Tx/Export.lean      the wire format: `ExportTx` writer, `ReplicateTx` parser (every length field
+                                behind its own check since the repair of the framing: no run-time panic left,
+                                `replicateTx_parser_never_panics`)
   ImmuModel/Store/Replica.lean  the replica store: `ReplicateTx` → `precommit` with a supplied header →
                                 `performPrecommit`, `sync`/`mayCommit`, `DiscardPrecommittedTxsSince`,
                                 `AllowCommitUpto` (store and database level), close/reopen with re-loading
@@ -15,7 +17,11 @@ Models (they mirror the code that exists, error classes and order of checks incl
 THE PROPERTY SENTENCE "an exported transaction … whose content was altered is rejected without
 effect" IS NOT TRUE OF THE CODE AS WRITTEN and is therefore not a theorem here.  What IS proved:
 altered entries are rejected when the integrity check is on (`replica_rejects_altered_entries`),
-non-extending deliveries are rejected without effect (`replica_rejects_nonextending`); what is
+non-extending deliveries are rejected without effect (`replica_rejects_nonextending`), bytes that do
+not parse are rejected without effect and never make the parser panic (`replica_rejects_unparsable`,
+`replicateTx_parser_never_panics`; the malformed framings that DID panic before the repair of
+`ReplicateTx` are the rejected inputs of `replica_rejects_malformed_trailer` and
+`replica_rejects_cut_value_length`); what is
 proved FALSE (witness theorems, each confirmed on the real code by the harness and registered in
 known_findings.json): a delivery with an altered timestamp / tx metadata is accepted locally
 (`altered_ts_accepted`, `altered_txmd_accepted`; design finding K3), with `skipIntegrityCheck` the
@@ -159,6 +165,46 @@ theorem replica_rejects_unparsable (hs : Hs D) (st : RSt D) (b : Bytes) (skip : 
     (hp : parseExported b = .error e) :
     (replicate hs st b skip).out = .error e ∧ (replicate hs st b skip).st = st :=
   replicate_rejects_unparsable hs st b skip e hp
+
+/-- **The framing parser of `ReplicateTx` never panics**, whatever the bytes: together with
+`replica_rejects_unparsable`, a delivery that does not parse is an error and nothing else.
+(Before the repair of the framing three malformed shapes ended in a Go run-time panic; they are the
+next two theorems.) -/
+theorem replicateTx_parser_never_panics (b : Bytes) : parseExported b ≠ .error .panic :=
+  parseExported_never_panics b
+
+/-- **Malformed trailer: rejected without effect.** A genuine export whose trailer is replaced by ONE
+byte (`Uint16` of a 1-byte slice, formerly a panic) is `ErrIllegalArguments`; replaced by a trailer of
+length 0 (`00 00 …`: `v[0]` of an empty slice, formerly a panic) it is `ErrIllegalTruncationArgument`.
+In both cases NOTHING changes on the replica. -/
+theorem replica_rejects_malformed_trailer (hs : Hs D) (st : RSt D) (skip : Bool) (x : Parsed) (hw : x.wf = true)
+    (y : UInt8) (more : Bytes) :
+    ∃ hb, hdrBytes x.hdr = .ok hb ∧
+      ((replicate hs st (beN Gen.storeLszSize hb.length ++ hb ++ x.entries.flatMap entryBytes ++ [y]) skip).out
+          = .error .illegal ∧
+       (replicate hs st (beN Gen.storeLszSize hb.length ++ hb ++ x.entries.flatMap entryBytes ++ [y]) skip).st = st) ∧
+      ((replicate hs st (beN Gen.storeLszSize hb.length ++ hb ++ x.entries.flatMap entryBytes ++ 0 :: 0 :: more) skip).out
+          = .error .illegalTruncation ∧
+       (replicate hs st (beN Gen.storeLszSize hb.length ++ hb ++ x.entries.flatMap entryBytes ++ 0 :: 0 :: more) skip).st = st) := by
+  obtain ⟨hb, h1, h2, h3⟩ := parse_malformed_trailer_aux x hw y more
+  exact ⟨hb, h1, replicate_rejects_unparsable hs st _ skip _ h2, replicate_rejects_unparsable hs st _ skip _ h3⟩
+
+/-- **Export cut inside a value length: rejected without effect.** A genuine export cut inside the
+`vLen` field of its last entry, that entry carrying kv-metadata (the bound checked before the key does
+not account for the metadata: `Uint32(exportedTx[i:])` read past the end, formerly a panic), is
+`ErrIllegalArguments` and NOTHING changes on the replica. -/
+theorem replica_rejects_cut_value_length (hs : Hs D) (st : RSt D) (skip : Bool) (x : Parsed) (hw : x.wf = true)
+    (es : List PEntry) (e : PEntry) (m : KVMd) (hx : x.entries = es ++ [e]) (hm : e.md = some m)
+    (cut : Bytes) (hc : cut.length < Gen.storeLszSize) :
+    ∃ hb, hdrBytes x.hdr = .ok hb ∧
+      (replicate hs st (beN Gen.storeLszSize hb.length ++ hb ++ es.flatMap entryBytes ++
+        (beN Gen.storeSszSize e.key.length ++ e.key ++
+         beN Gen.storeSszSize (kvmdBytes m).length ++ kvmdBytes m ++ cut)) skip).out = .error .illegal ∧
+      (replicate hs st (beN Gen.storeLszSize hb.length ++ hb ++ es.flatMap entryBytes ++
+        (beN Gen.storeSszSize e.key.length ++ e.key ++
+         beN Gen.storeSszSize (kvmdBytes m).length ++ kvmdBytes m ++ cut)) skip).st = st := by
+  obtain ⟨hb, h1, h2⟩ := parse_cut_value_length_aux x hw es e m hx hm cut hc
+  exact ⟨hb, h1, replicate_rejects_unparsable hs st _ skip _ h2⟩
 
 /-- Every rejection leaves the state untouched, EXCEPT the two errors raised after the record was
 already written to the tx log: `ErrBufferIsFull` (`cLogBuf.put`; the record is re-loaded by the
@@ -359,6 +405,21 @@ theorem reports_bounded (s0 : Sys) (c0 : Nat) (h0 : s0.Init c0) (evs : List Ev) 
 example (hs : Hs D) (cfg : RCfg) : Genuine hs cfg ([] : List (RRec D)) := ⟨fun i h => absurd h (Nat.not_lt_zero i)⟩
 example (hs : Hs D) (cfg : RCfg) : HoldsPrefix (RSt.init cfg : RSt D) ([] : List (RRec D)) 0 :=
   ⟨rfl, Nat.le_refl 0, fun i h => absurd h (Nat.not_lt_zero i)⟩
+
+/-- A well-formed one-entry transaction whose entry carries kv-metadata (`deleted`): the hypotheses of
+`replica_rejects_malformed_trailer` / `replica_rejects_cut_value_length` are satisfiable, and the
+three formerly panicking shapes are rejected by the parser model as the theorems say. -/
+def demoTx : Parsed :=
+  { hdr := { id := 1, version := 1, nentries := 1 },
+    entries := [{ key := [107], md := some { deleted := true }, payload := [118] }], truncated := false }
+
+example : demoTx.wf = true := by decide
+example : demoTx.entries = [] ++ [{ key := [107], md := some { deleted := true }, payload := [118] }] := rfl
+example : ∃ hb, hdrBytes demoTx.hdr = .ok hb ∧
+    parseExported (beN Gen.storeLszSize hb.length ++ hb ++ demoTx.entries.flatMap entryBytes ++ [0]) = .error .illegal ∧
+    parseExported (beN Gen.storeLszSize hb.length ++ hb ++ demoTx.entries.flatMap entryBytes ++ [0, 0]) = .error .illegalTruncation ∧
+    parseExported (beN Gen.storeLszSize hb.length ++ hb ++ [0, 1, 107, 0, 1, 0, 0, 0, 0]) = .error .illegal :=
+  ⟨_, rfl, by decide +kernel, by decide +kernel, by decide +kernel⟩
 
 /-- The ack protocol run: one Synced replica, 3 writes; the replica replicates, syncs, informs; the
 primary commits 3; the replica is allowed 3, discards from 2: its allowance (3) exceeds what it
